@@ -53,6 +53,9 @@ Offer(ts) ==
 Next == \/ \E d \in Delays, s \in Strategies, l \in Lates : (s # "allowed" => l = 0) /\ Config(d, s, l)
         \/ \E ts \in TS : Offer(ts)
 Spec == Init /\ [][Next]_vars
+(* long climbs: after the configuration every offer is one above the largest timestamp seen, or two below it (late or not) *)
+NextClimb == \/ \E d \in Delays, s \in Strategies, l \in Lates : (s # "allowed" => l = 0) /\ Config(d, s, l)
+             \/ \E ts \in {mx + 1, Monus(mx, 2)} : ts \in TS /\ Offer(ts)
 
 -------------------------------------------------------------------------------------
 (* C13 *)
